@@ -157,6 +157,14 @@ func (omr objMeshReading) empty() bool {
 	return len(omr.tris) == 0
 }
 
+// closeMaterial records how many triangles have been read since the last
+// usemtl statement as the size of the material range that statement opened.
+func (omr objMeshReading) closeMaterial(trisSinceLastMat int) {
+	if trisSinceLastMat > 0 && len(omr.meshMats) > 0 {
+		omr.meshMats[len(omr.meshMats)-1].PrimitiveCount = trisSinceLastMat
+	}
+}
+
 func (omr objMeshReading) toMesh() ObjMesh {
 	mesh := modeling.NewTriangleMesh(omr.tris).
 		SetFloat3Attribute(modeling.PositionAttribute, omr.verts).
@@ -270,6 +278,12 @@ func ReadMesh(in io.Reader) ([]ObjMesh, []string, error) {
 			}
 
 			if !workingGeom.empty() {
+				// Close the material range that is still open, and start counting
+				// from scratch for the next group. Otherwise the group is stored
+				// with a range of 0 triangles and its count leaks into the next one.
+				workingGeom.closeMaterial(trisSenseLastMat)
+				trisSenseLastMat = 0
+
 				geoms = append(geoms, workingGeom.toMesh())
 				workingGeom = newObjMeshReading()
 			}
@@ -353,12 +367,8 @@ func ReadMesh(in io.Reader) ([]ObjMesh, []string, error) {
 		return nil, nil, fmt.Errorf("failed to run scanner: %w", err)
 	}
 
+	workingGeom.closeMaterial(trisSenseLastMat)
 	geoms = append(geoms, workingGeom.toMesh())
-	if trisSenseLastMat > 0 {
-		if len(workingGeom.meshMats) > 0 {
-			workingGeom.meshMats[len(workingGeom.meshMats)-1].PrimitiveCount = trisSenseLastMat
-		}
-	}
 
 	return geoms, readMaterialFiles, nil
 }
